@@ -181,7 +181,7 @@ def gen_fire_tmp(rng, calc, family):
             "step": [100.0, "Yard"]}
 
 
-def gen_client_program(rng, w, task_idx, calcs, shots, n_ops, raising_calcs, allow=("fire", "zero", "elev", "danger", "mk", "powder", "fire_tmp", "edit", "retag")):
+def gen_client_program(rng, w, task_idx, calcs, shots, n_ops, raising_calcs, allow=("fire", "zero", "elev", "danger", "mk", "powder", "fire_tmp", "edit", "edit", "retag")):
     """calcs: list of calc ids owned by the task; raising_calcs: {cid: kind}.  Every calc is created by a new_calc
     op before its first use (sometimes late, so creation interleaves with other tasks' work)."""
     prog = []
@@ -190,6 +190,16 @@ def gen_client_program(rng, w, task_idx, calcs, shots, n_ops, raising_calcs, all
     prog.append({"op": "new_calc", "calc": pending.pop(0)})
     created.append(prog[0]["calc"])
     own_ammos = []
+    if "edit" in allow and rng.random() < 0.45:
+        # private ammunition + drag model + shot from the start: objects the task may edit between computations
+        w["dms"].append(dict(w["dms"][rng.randrange(len(w["dms"]))]))
+        w["ammos"].append({"dm": len(w["dms"]) - 1, "mv": [round(rng.uniform(2300, 3000), 1), "FPS"],
+                           "powder_temp": [15.0, "Celsius"], "use_ps": True, "temp_modifier": 0.02})
+        own_ammos.append(len(w["ammos"]) - 1)
+        sh = dict(w["shots"][shots[0]])
+        sh["ammo"] = own_ammos[0]
+        w["shots"].append(sh)
+        shots.append(len(w["shots"]) - 1)
     family = {"kind": "derived", "name": gen.pick(rng, gen.SHIPPED_TABLES), "stride": rng.randint(1, 3), "offset": rng.randint(0, 2)}
     while len(prog) < n_ops:
         if pending and rng.random() < 0.3:
